@@ -279,4 +279,34 @@ def r86(F):
     return r
 
 
-RULES = [r71, r72, r73, r74, r86]
+def r74l(F):
+    r = RuleResult("R74l", "the parser never decides on where a token stands",
+                   "no function of the parser compares token positions (line / column / offset): the program parsed from a token "
+                   "sequence is a function of the tokens alone, so white space and comments between tokens cannot change it "
+                   "(`1 . 5` and `1.5` are the same three tokens)", floor=40, exhaustive=True)
+    n = 0
+    bad = []
+    for name, fn in sorted(F.fns.items()):
+        if not name.startswith("ucglib::parse::") or fn.derived or "::test" in name:
+            continue
+        n += 1
+        o = None
+        for b, j, pl, rv, m in fn.assigns():
+            if rv["k"] == "bin" and rv["op"] in ("Eq", "Ne", "Lt", "Le", "Gt", "Ge") and rv.get("ty") in ("usize", "u32", "u64", "isize", "i64"):
+                o = o or Origins(fn)
+                labs = set()
+                for x in rv["ops"]:
+                    labs |= o.at(x, b)
+                fs = {l[1] for l in labs if l[0] == "field"} & {"offset", "line", "column"}
+                if fs:
+                    bad.append((name, fn.where(b), sorted(fs)))
+    for name, where, fs in bad:
+        r.inst("compares:%s" % name.split("::")[-1], where, False,
+               "%s compares the %s of tokens: what is parsed depends on the layout (a float written `1 . 5` or across a line break "
+               "parses differently from `1.5`)" % (name.split("::")[-1], "/".join(fs)))
+    r.inst("parser-functions", "src/parse/", not bad, "%d parser functions, none compares a position" % n if not bad else "%d site(s) compare positions" % len(bad))
+    r.floor = 1
+    return r
+
+
+RULES = [r71, r72, r73, r74, r86, r74l]
